@@ -561,7 +561,7 @@ def rule_I(ctx):
                 bad = bad or {'edge geometry': gname, 'call': '__distToNode(geometry, first vertex, 0)', 'returned': repr(got), 'expected': 0.0}
     except orders.Unsupported as ex:
         raise shape_error('__distToNode not interpretable: %s' % ex, f.loc())
-    except (IndexError, KeyError, TypeError, AttributeError, ValueError, ZeroDivisionError, orders.Raised) as ex:
+    except orders.PROGRAM_ERRORS as ex:
         bad = bad or {'exception': '%s: %s' % (type(ex).__name__, str(ex)[:200])}
     ctx.check(bad is None, 'C10.I', f, 'the distances from a candidate to the two end nodes of its edge pair abscissa S[i] with vertex i and S[i+1] with vertex i+1 '
               '(%d interpreted cases)' % n, witness=bad, node=f.node, key='end-distances')
@@ -628,7 +628,7 @@ def rule_A(ctx):
                        'expected': dict(want, network='the network given', track='each track given, once, in order')}
     except orders.Unsupported as ex:
         raise shape_error('mapOnNetwork not interpretable: %s' % ex, outer.loc())
-    except (IndexError, KeyError, TypeError, AttributeError, ValueError, ZeroDivisionError, orders.Raised) as ex:
+    except orders.PROGRAM_ERRORS as ex:
         bad = bad or {'exception': '%s: %s' % (type(ex).__name__, str(ex)[:200])}
     ctx.check(bad is None, 'C10.A', outer, 'mapOnNetwork matches each track given once, on the network given, with the noise, transition cost and search radius given '
               '(%d interpreted call forms)' % n, witness=bad, node=outer.node, key='arguments')
